@@ -14,8 +14,10 @@ import (
 	"sync"
 	"time"
 
+	"github.com/bsm/openmetrics"
 	"github.com/gorilla/websocket"
 	"github.com/posener/wstest"
+	"github.com/resgateio/resgate/server/metrics"
 	"github.com/resgateio/resgate/server/mq"
 	"github.com/resgateio/resgate/server/rescache"
 	"github.com/resgateio/resgate/zzvf"
@@ -206,6 +208,36 @@ type vfWorld struct {
 	s       *Service
 	mq      *vfMQ
 	clients []*vfClient
+	gauges  *metrics.MetricSet // the cache's gauges (harness implementation of the library's interfaces)
+}
+
+// vfGauge / vfCounter stand in for the metrics library's gauge and counter:
+// only Add, Set and Value are implemented (any other method would panic).
+type vfGauge struct {
+	openmetrics.Gauge
+	v float64
+}
+
+func (g *vfGauge) Add(val float64) { g.v += val }
+func (g *vfGauge) Set(val float64) { g.v = val }
+func (g *vfGauge) Value() float64  { return g.v }
+
+type vfCounter struct{ openmetrics.Counter }
+
+func (vfCounter) Add(val float64) {}
+
+type vfCounterFamily struct{ openmetrics.CounterFamily }
+
+func (vfCounterFamily) With(labelValues ...string) openmetrics.Counter { return vfCounter{} }
+
+func vfNewGauges() *metrics.MetricSet {
+	return &metrics.MetricSet{
+		MemSysBytes: &vfGauge{}, WSConnections: &vfGauge{}, WSConnectionCount: vfCounter{},
+		WSRequestsGet: vfCounter{}, WSRequestsSubscribe: vfCounter{}, WSRequestsUnsubscribe: vfCounter{},
+		WSRequestsCall: vfCounter{}, WSRequestsAuth: vfCounter{},
+		CacheResources: &vfGauge{}, CacheSubscriptions: &vfGauge{},
+		HTTPRequests: vfCounterFamily{}, HTTPRequestsGet: vfCounter{}, HTTPRequestsPost: vfCounter{},
+	}
 }
 
 type vfSink struct {
@@ -260,7 +292,8 @@ func vfNewWorldOpt(cfg Config, started bool) *vfWorld {
 		s.cfg.allowOrigin = []string{"*"}
 	}
 	s.conns = make(map[string]*wsConn)
-	s.cache = rescache.NewCache(m, 0, cfg.ResetThrottle, time.Hour, s.logger, nil)
+	ms := vfNewGauges()
+	s.cache = rescache.NewCache(m, 0, cfg.ResetThrottle, time.Hour, s.logger, ms)
 	if started {
 		s.stop = make(chan error, 1)
 		if err := s.cache.Start(); err != nil {
@@ -268,7 +301,7 @@ func vfNewWorldOpt(cfg Config, started bool) *vfWorld {
 		}
 	}
 	s.enc = apiEncoderFactories["json"](s.cfg)
-	return &vfWorld{s: s, mq: m}
+	return &vfWorld{s: s, mq: m, gauges: ms}
 }
 
 // vfNativeWS creates an in-memory websocket pair (native mode) and collects
